@@ -269,7 +269,13 @@ def check_bad_position(spec, ctx):
 
 @st.composite
 def case(draw):
-    return {"g": draw(geometry_spec(invalid_polygons=True)), "dt": draw(st.sampled_from([0.5, 10.0, 1024.0]))}
+    g = draw(geometry_spec(invalid_polygons=True))
+    if g["type"] in ("MultiPoint", "MultiLineString", "MultiPolygon") and draw(st.integers(0, 5)) == 0:
+        # the same member listed twice (a call annotated twice, a merged export): every listed part counts and converts
+        c = list(g["coordinates"])
+        c.insert(draw(st.integers(0, len(c))), c[draw(st.integers(0, len(c) - 1))])
+        g = {"type": g["type"], "coordinates": c, "meta": g["meta"]}
+    return {"g": g, "dt": draw(st.sampled_from([0.5, 10.0, 1024.0]))}
 
 
 @st.composite
